@@ -1611,9 +1611,13 @@ static void *peg_unmarshal(JanetMarshalContext *ctx) {
     while (i < blen) {
         uint32_t instr = bytecode[i];
         uint32_t *rule = bytecode + i;
+        /* Operand words must lie inside the bytecode before they are read */
+        uint32_t left = blen - i;
         op_flags[i] |= 0x02;
         switch (instr) {
             case RULE_LITERAL:
+                if (left < 2) goto bad;
+                if (rule[1] > (left - 2) * 4) goto bad;
                 i += 2 + ((rule[1] + 3) >> 2);
                 break;
             case RULE_NCHAR:
@@ -1622,19 +1626,23 @@ static void *peg_unmarshal(JanetMarshalContext *ctx) {
             case RULE_POSITION:
             case RULE_LINE:
             case RULE_COLUMN:
+                if (left < 2) goto bad;
                 /* [1 word] */
                 i += 2;
                 break;
             case RULE_BACKMATCH:
+                if (left < 2) goto bad;
                 /* [1 word] */
                 i += 2;
                 has_backref = 1;
                 break;
             case RULE_SET:
+                if (left < 9) goto bad;
                 /* [8 words] */
                 i += 9;
                 break;
             case RULE_LOOK:
+                if (left < 3) goto bad;
                 /* [offset, rule] */
                 if (rule[2] >= blen) goto bad;
                 op_flags[rule[2]] |= 0x1;
@@ -1642,9 +1650,11 @@ static void *peg_unmarshal(JanetMarshalContext *ctx) {
                 break;
             case RULE_CHOICE:
             case RULE_SEQUENCE:
+                if (left < 2) goto bad;
                 /* [len, rules...] */
             {
                 uint32_t len = rule[1];
+                if (len > left - 2) goto bad;
                 for (uint32_t j = 0; j < len; j++) {
                     if (rule[2 + j] >= blen) goto bad;
                     op_flags[rule[2 + j]] |= 0x1;
@@ -1655,6 +1665,7 @@ static void *peg_unmarshal(JanetMarshalContext *ctx) {
             case RULE_IF:
             case RULE_IFNOT:
             case RULE_LENPREFIX:
+                if (left < 3) goto bad;
                 /* [rule_a, rule_b (b if not a)] */
                 if (rule[1] >= blen) goto bad;
                 if (rule[2] >= blen) goto bad;
@@ -1663,26 +1674,31 @@ static void *peg_unmarshal(JanetMarshalContext *ctx) {
                 i += 3;
                 break;
             case RULE_BETWEEN:
+                if (left < 4) goto bad;
                 /* [lo, hi, rule] */
                 if (rule[3] >= blen) goto bad;
                 op_flags[rule[3]] |= 0x01;
                 i += 4;
                 break;
             case RULE_ARGUMENT:
+                if (left < 3) goto bad;
                 /* [searchtag, tag] */
                 i += 3;
                 break;
             case RULE_GETTAG:
+                if (left < 3) goto bad;
                 /* [searchtag, tag] */
                 i += 3;
                 has_backref = 1;
                 break;
             case RULE_CONSTANT:
+                if (left < 3) goto bad;
                 /* [constant, tag] */
                 if (rule[1] >= clen) goto bad;
                 i += 3;
                 break;
             case RULE_CAPTURE_NUM:
+                if (left < 4) goto bad;
                 /* [rule, base, tag] */
                 if (rule[1] >= blen) goto bad;
                 op_flags[rule[1]] |= 0x01;
@@ -1692,6 +1708,7 @@ static void *peg_unmarshal(JanetMarshalContext *ctx) {
             case RULE_GROUP:
             case RULE_CAPTURE:
             case RULE_UNREF:
+                if (left < 3) goto bad;
                 /* [rule, tag] */
                 if (rule[1] >= blen) goto bad;
                 op_flags[rule[1]] |= 0x01;
@@ -1699,6 +1716,7 @@ static void *peg_unmarshal(JanetMarshalContext *ctx) {
                 break;
             case RULE_REPLACE:
             case RULE_MATCHTIME:
+                if (left < 4) goto bad;
                 /* [rule, constant, tag] */
                 if (rule[1] >= blen) goto bad;
                 if (rule[2] >= clen) goto bad;
@@ -1708,6 +1726,7 @@ static void *peg_unmarshal(JanetMarshalContext *ctx) {
             case RULE_SUB:
             case RULE_TIL:
             case RULE_SPLIT:
+                if (left < 3) goto bad;
                 /* [rule, rule] */
                 if (rule[1] >= blen) goto bad;
                 if (rule[2] >= blen) goto bad;
@@ -1721,17 +1740,20 @@ static void *peg_unmarshal(JanetMarshalContext *ctx) {
             case RULE_NOT:
             case RULE_TO:
             case RULE_THRU:
+                if (left < 2) goto bad;
                 /* [rule] */
                 if (rule[1] >= blen) goto bad;
                 op_flags[rule[1]] |= 0x01;
                 i += 2;
                 break;
             case RULE_READINT:
+                if (left < 3) goto bad;
                 /* [ width | (signedness << 4) | (endianness << 5), tag ] */
                 if ((rule[1] & 0xF) > JANET_MAX_READINT_WIDTH || rule[1] > 0x3F) goto bad;
                 i += 3;
                 break;
             case RULE_NTH:
+                if (left < 4) goto bad;
                 /* [nth, rule, tag] */
                 if (rule[2] >= blen) goto bad;
                 op_flags[rule[2]] |= 0x01;
